@@ -1,7 +1,7 @@
 (* Entry point of the executable model: one case (a [val]) in, one
    observation (a [val]) out.  The same function is extracted to OCaml
    (vv_eval) and re-evaluated on samples inside Coq by vm_compute. *)
-From VV Require Import Base.Bits Base.Rt Base.Val Gen.GenConsts Gen.GenLayout Gen.GenFns Spec.ValidityDec Spec.BeSpec Spec.FeSpec Spec.SessSpec Spec.ProxySpec Spec.DaemonSpec Spec.ShutSpec Spec.KernSpec Model.Transport Model.BeServer Model.Frontend Model.Proxy Model.Daemon Model.Shutdown.
+From VV Require Import Base.Bits Base.Rt Base.Val Gen.GenConsts Gen.GenLayout Gen.GenFns Spec.ValidityDec Spec.BeSpec Spec.FeSpec Spec.SessSpec Spec.ProxySpec Spec.DaemonSpec Spec.ShutSpec Spec.KernSpec Spec.RaceSpec Model.Transport Model.BeServer Model.Frontend Model.Proxy Model.Daemon Model.Shutdown Model.Race.
 Open Scope string_scope.
 Open Scope list_scope.
 Open Scope N_scope.
@@ -473,6 +473,8 @@ Definition run (c : val) : val :=
       else if String.eqb fam "sess" then run_sess args
       else if String.eqb fam "tx" then run_tx args
       else if String.eqb fam "dmn" then run_dmn args
+      else if String.eqb fam "race" then (match args with [VL toks] => race_run toks | _ => verror "args" end)
+      else if String.eqb fam "race-spec" then race_spec args
       else if String.eqb fam "kern" then run_kern args
       else if String.eqb fam "kern-spec" then run_kern_spec args
       else if String.eqb fam "shut" then run_shut args
